@@ -1,8 +1,9 @@
 /-
   FindCompleteExtend.lean — completeness of the incremental candidate enumeration (C02):
   every tuple of near atoms that starts at a home-cell start atom of the right element, lies in the start atom's
-  cubic neighbourhood, has the right elements and reproduces ALL pairwise pattern distances (in the model's exact
-  form of `math.isclose`) is produced by `candidates`.
+  cubic neighbourhood, has the right elements, consists of pairwise DIFFERENT unit-cell atoms (the extension loop
+  skips an atom whose unit-cell atom is already in the partial match) and reproduces ALL pairwise pattern distances
+  (in the model's exact form of `math.isclose`) is produced by `candidates`.
 -/
 import MofunModel.Model.Find
 
@@ -46,11 +47,12 @@ theorem mem_sorted_idx (l : List Vec3) (k : Nat) (hk : k < l.length) :
 /-! ### one extension round -/
 
 theorem mem_extendRound (pp : List Vec3) (pelem : String) (i : Nat) (atol : Rat)
-    (nearPos : Nat → Vec3) (nearElem : Nat → String) (nearby : List Nat) (partials : List (List Nat))
+    (nearPos : Nat → Vec3) (nearElem : Nat → String) (nearUc : Nat → Nat) (nearby : List Nat) (partials : List (List Nat))
     (mt : List Nat) (cand : Nat) (hmt : mt ∈ partials) (hc : cand ∈ nearby) (hel : nearElem cand = pelem)
+    (hnew : ∀ x ∈ mt, nearUc x ≠ nearUc cand)
     (hd : ∀ j, j < i → iscloseSqrt (distSq (pp.getD i Vec3.zero) (pp.getD j Vec3.zero))
                           (distSq (nearPos (mt.getD j 0)) (nearPos cand)) atol = true) :
-    mt ++ [cand] ∈ extendRound pp pelem i atol nearPos nearElem nearby partials := by
+    mt ++ [cand] ∈ extendRound pp pelem i atol nearPos nearElem nearUc nearby partials := by
   unfold extendRound
   apply List.mem_flatMap.mpr
   refine ⟨mt, hmt, ?_⟩
@@ -62,14 +64,19 @@ theorem mem_extendRound (pp : List Vec3) (pelem : String) (i : Nat) (atol : Rat)
     apply List.all_eq_true.mpr
     intro j hj
     exact hd j (List.mem_range.mp hj)
-  simp only [hel, hall, decide_true, Bool.and_self, if_true]
+  have hfresh : (mt.map nearUc).contains (nearUc cand) = false := by
+    rw [List.contains_eq_mem, decide_eq_false_iff_not, List.mem_map]
+    rintro ⟨x, hx, he⟩
+    exact hnew x hx he
+  simp only [hel, hall, hfresh, decide_true, Bool.not_false, Bool.and_self, if_true]
 
 /-! ### all rounds -/
 
 /-- what the code demands of a complete tuple `t` (positions in the near list) -/
 structure TupleFits (pp : List Vec3) (pelems : List String) (atol : Rat) (nearPos : Nat → Vec3)
-    (nearElem : Nat → String) (nearby : List Nat) (t : List Nat) : Prop where
+    (nearElem : Nat → String) (nearUc : Nat → Nat) (nearby : List Nat) (t : List Nat) : Prop where
   len : t.length = pp.length
+  distinct : ∀ i j, j < i → i < t.length → nearUc (t.getD j 0) ≠ nearUc (t.getD i 0)
   mem : ∀ i, 1 ≤ i → i < t.length → t.getD i 0 ∈ nearby
   elem : ∀ i, 1 ≤ i → i < t.length → nearElem (t.getD i 0) = pelems.getD i ""
   dist : ∀ i j, j < i → i < t.length →
@@ -85,11 +92,11 @@ theorem take_succ_eq_append_getD {α} (l : List α) (n : Nat) (d : α) (h : n < 
   simp [List.getD_eq_getElem?_getD, List.getElem?_eq_getElem h]
 
 theorem rounds_complete (pp : List Vec3) (pelems : List String) (atol : Rat) (nearPos : Nat → Vec3)
-    (nearElem : Nat → String) (nearby : List Nat) (t : List Nat)
-    (h : TupleFits pp pelems atol nearPos nearElem nearby t) (hpos : 0 < pp.length) :
+    (nearElem : Nat → String) (nearUc : Nat → Nat) (nearby : List Nat) (t : List Nat)
+    (h : TupleFits pp pelems atol nearPos nearElem nearUc nearby t) (hpos : 0 < pp.length) :
     ∀ r, r + 1 ≤ pp.length →
       t.take (r + 1) ∈ (List.range r).foldl
-        (fun partials r => extendRound pp (pelems.getD (r + 1) "") (r + 1) atol nearPos nearElem nearby partials)
+        (fun partials r => extendRound pp (pelems.getD (r + 1) "") (r + 1) atol nearPos nearElem nearUc nearby partials)
         [[t.getD 0 0]] := by
   intro r
   induction r with
@@ -107,7 +114,14 @@ theorem rounds_complete (pp : List Vec3) (pelems : List String) (atol : Rat) (ne
     simp only [List.foldl_cons, List.foldl_nil]
     have hlt : r + 1 < t.length := by rw [h.len]; omega
     rw [take_succ_eq_append_getD t (r + 1) 0 hlt]
-    apply mem_extendRound _ _ _ _ _ _ _ _ _ _ hprev (h.mem (r + 1) (by omega) hlt) (h.elem (r + 1) (by omega) hlt)
+    apply mem_extendRound _ _ _ _ _ _ _ _ _ _ _ hprev (h.mem (r + 1) (by omega) hlt) (h.elem (r + 1) (by omega) hlt)
+    · intro x hx
+      obtain ⟨j, hj, rfl⟩ := List.getElem_of_mem hx
+      have hj' : j < r + 1 := by simpa [List.length_take] using (Nat.lt_of_lt_of_le hj (by simp [List.length_take]; omega))
+      have e : (t.take (r + 1))[j] = t.getD j 0 := by
+        rw [← getD_take t (r + 1) j 0 hj', List.getD_eq_getElem?_getD, List.getElem?_eq_getElem hj]; rfl
+      rw [e]
+      exact h.distinct (r + 1) j hj' hlt
     intro j hj
     rw [getD_take t (r + 1) j 0 hj]
     exact h.dist (r + 1) j hj hlt
@@ -115,9 +129,9 @@ theorem rounds_complete (pp : List Vec3) (pelems : List String) (atol : Rat) (ne
 /-- **completeness of `candidates`.** A tuple `t` of positions in the near list is among the candidates whenever
     its first entry is a home-image atom (position `< N`) of the first pattern element and every later entry
     is a near atom inside the start atom's cubic window, of the right element, reproducing all distances to the
-    earlier entries. -/
+    earlier entries, and no two entries are (images of) the same unit-cell atom. -/
 theorem candidates_complete (pp : List Vec3) (pelems : List String) (atol m : Rat) (nStruct : Nat)
-    (nearPosL : List Vec3) (nearElemL : List String) (t : List Nat)
+    (nearPosL : List Vec3) (nearElemL : List String) (nearUcL : List Nat) (t : List Nat)
     (hpos : 0 < pp.length) (hlen : t.length = pp.length)
     (hstart : t.getD 0 0 < min nStruct nearElemL.length)
     (hel0 : nearElemL.getD (t.getD 0 0) "" = pelems.getD 0 "")
@@ -127,8 +141,9 @@ theorem candidates_complete (pp : List Vec3) (pelems : List String) (atol m : Ra
     (helem : ∀ i, 1 ≤ i → i < t.length → nearElemL.getD (t.getD i 0) "" = pelems.getD i "")
     (hdist : ∀ i j, j < i → i < t.length →
       iscloseSqrt (distSq (pp.getD i Vec3.zero) (pp.getD j Vec3.zero))
-        (distSq (nearPosL.getD (t.getD j 0) Vec3.zero) (nearPosL.getD (t.getD i 0) Vec3.zero)) atol = true) :
-    t ∈ candidates pp pelems atol m nStruct nearPosL nearElemL := by
+        (distSq (nearPosL.getD (t.getD j 0) Vec3.zero) (nearPosL.getD (t.getD i 0) Vec3.zero)) atol = true)
+    (hdistinct : ∀ i j, j < i → i < t.length → nearUcL.getD (t.getD j 0) 0 ≠ nearUcL.getD (t.getD i 0) 0) :
+    t ∈ candidates pp pelems atol m nStruct nearPosL nearElemL nearUcL := by
   unfold candidates
   simp only
   apply List.mem_flatMap.mpr
@@ -136,13 +151,14 @@ theorem candidates_complete (pp : List Vec3) (pelems : List String) (atol m : Ra
   · apply List.mem_filter.mpr
     exact ⟨List.mem_range.mpr hstart, by simpa using hel0⟩
   · have hfits : TupleFits pp pelems atol (fun k => nearPosL.getD k Vec3.zero) (fun k => nearElemL.getD k "")
-        (((sortLex nearPosL.zipIdx).map (·.2)).filter
+        (fun k => nearUcL.getD k 0) (((sortLex nearPosL.zipIdx).map (·.2)).filter
           (fun k => inCube (nearPosL.getD (t.getD 0 0) Vec3.zero) (nearPosL.getD k Vec3.zero) m atol)) t :=
       { len := hlen
+        distinct := hdistinct
         mem := fun i h1 h2 => List.mem_filter.mpr ⟨mem_sorted_idx _ _ (hin i h1 h2), hcube i h1 h2⟩
         elem := helem
         dist := hdist }
-    have := rounds_complete pp pelems atol _ _ _ t hfits hpos (pp.length - 1) (by omega)
+    have := rounds_complete pp pelems atol _ _ _ _ t hfits hpos (pp.length - 1) (by omega)
     have e : pp.length - 1 + 1 = t.length := by omega
     rw [e, List.take_length] at this
     exact this
